@@ -68,3 +68,22 @@ Print Assumptions C08_orientation_and_products.
 Print Assumptions C08_distance_and_ellipse.
 Print Assumptions C08_polygon_translation.
 Print Assumptions C08_longitude.
+
+(** the distance to a ridge segment does not depend on which of the two copies of the query point (longitude L or
+    L +- 360 degrees) is the natural one: when one copy is strictly closer in longitude to the segment, handing the two
+    copies over in either order gives the same distance and spreading velocity (for every number interpretation).
+    Before defect D31 was repaired the smaller of two great-circle distances decided, one of them measured to the
+    projection of the far copy, which changes with the side the far copy lies on. *)
+From WB Require Import Features.
+Theorem C08_ridge_segment_alias_symmetric : forall (F : Type) (NF : Num F) sph nat_min (cp cp2 p0 p1 : F * F) v0 v1,
+  let mid := fmul fhalf (fadd (fst p0) (fst p1)) in
+  flt (fabs (fsub (fst cp2) mid)) (fabs (fsub (fst cp) mid)) = true ->
+  flt (fabs (fsub (fst cp) mid)) (fabs (fsub (fst cp2) mid)) = false ->
+  ridge_segment sph nat_min cp cp2 p0 p1 v0 v1 = ridge_segment sph nat_min cp2 cp p0 p1 v0 v1.
+Proof.
+  intros F NF sph nat_min cp cp2 p0 p1 v0 v1 mid H1 H2. unfold ridge_segment.
+  fold mid. rewrite H1, H2.
+  destruct (if fle _ f0 then _ else _) as [pb1 s1]. destruct (if fle _ f0 then _ else _) as [pb2 s2].
+  destruct nat_min as [[a b] c3]. reflexivity.
+Qed.
+Print Assumptions C08_ridge_segment_alias_symmetric.
